@@ -167,6 +167,17 @@ def family_sel(tier='quick'):
     # stand-alone start nodes (no edges at all) next to a chain and a choice
     out.append(_sel('standalone-starts', ['A', 'B', 'P0', 'P1', 'L0', 'L1', 'L2'], [('A', 'B')], ['A', 'L0', 'L1', 'L2'],
                     [('C1', 'B', ['P0', 'P1'])]))
+    # two roots that are not start nodes and share a descendant (the whole floating part has to be absent)
+    out.append(_sel('floating-two-roots-shared', ['A', 'P0', 'P1', 'F1', 'F2', 'FA', 'FB', 'X', 'Z'],
+                    [('F1', 'FA'), ('FA', 'X'), ('F2', 'FB'), ('FB', 'X'), ('X', 'Z')], ['A'], [('C1', 'A', ['P0', 'P1'])]))
+    # a choice that options of two different choices activate (merged scenario), next to an independent choice
+    out.append(_sel('activated-by-two-choices', ['S', 'A', 'B', 'C', 'P0', 'P1', 'Q0', 'Q1', 'M', 'R0', 'R1', 'T0', 'T1'],
+                    [('S', 'A'), ('S', 'B'), ('S', 'C'), ('P0', 'M'), ('Q0', 'M')], ['S'],
+                    [('C1', 'A', ['P0', 'P1']), ('C2', 'B', ['Q0', 'Q1']), ('C5', 'M', ['R0', 'R1']), ('C3', 'C', ['T0', 'T1'])]))
+    # ... and the nested variant: C5 is activated by option P0 of C1 or by option Q0 of C2, which itself sits below P1
+    out.append(_sel('activated-by-two-nested-choices', ['S1', 'S3', 'P0', 'P1', 'B', 'Q0', 'Q1', 'M', 'R0', 'R1', 'T0', 'T1'],
+                    [('P1', 'B'), ('P0', 'M'), ('Q0', 'M')], ['S1', 'S3'],
+                    [('C1', 'S1', ['P0', 'P1']), ('C2', 'B', ['Q0', 'Q1']), ('C5', 'M', ['R0', 'R1']), ('C3', 'S3', ['T0', 'T1'])]))
     # no choices at all
     out.append(_sel('no-choice', ['A', 'B', 'C'], [('A', 'B'), ('B', 'C')], ['A'], []))
     # choice whose option activates two further choices
@@ -319,6 +330,14 @@ def family_inc(tier='quick'):
     out.append(Desc(['S', 'A0', 'A1', 'M', 'B0', 'B1', 'T'], [('A1', 'M'), ('A1', 'T')], ['S'],
                     choices=[('CA', 'S', ['A0', 'A1']), ('CB', 'M', ['B0', 'B1'])],
                     incompat=[('T', 'B0'), ('T', 'B1')], label='inc-dead-option-via-derived-nodes'))
+    # two constraints leaving the same option: one target is derived by every option of another choice (conflict that
+    # cannot be avoided), the other one is harmless
+    for flip in (False, True):
+        two_pairs = [('S', 'T'), ('S', 'R0')]
+        out.append(Desc(['X', 'A', 'B', 'C', 'S', 'Q1', 'P0', 'P1', 'M', 'T', 'R0', 'R1'],
+                        [('X', 'A'), ('X', 'B'), ('X', 'C'), ('P0', 'M'), ('P1', 'M'), ('M', 'T')], ['X'],
+                        choices=[('C1', 'A', ['S', 'Q1']), ('C2', 'B', ['P0', 'P1']), ('C3', 'C', ['R0', 'R1'])],
+                        incompat=two_pairs[::-1] if flip else two_pairs, label=f'inc-two-constraints-one-unavoidable-{int(flip)}'))
     # incompatibility with a start node / between two permanent nodes (infeasible space) / option vs permanent
     out.append(Desc(['A', 'B', 'P0', 'P1'], [('A', 'B')], ['A'], choices=[('C1', 'A', ['P0', 'P1'])],
                     incompat=[('A', 'P0')], label='inc-start-vs-option'))
@@ -529,6 +548,14 @@ def family_conn(tier='quick'):
         out.append(Desc(['A', 'P0', 'P1'], [], ['A'], choices=[('C1', 'A', ['P0', 'P1'])], conns=conns,
                         groups=[('G', ['g1', 'g2'])], conn_choices=[('CC', ['G'], ['t0', 't1', 't2'], [])],
                         label=f'conn-group-unbounded-{trial}'))
+    # grouping node whose conditional member decides whether zero connections are allowed, on a connection choice whose
+    # only target sits below an option of another choice (the choice can be left without anything to connect to)
+    for trial, (d1, d2) in enumerate(((('range', 0, 1), ('list', (1,))), (('list', (0,)), ('range', 1, 2)), (('range', 0, 1), ('min', 1)))):
+        out.append(Desc(['A', 'P0', 'P1', 'Q0', 'Q1'], [], ['A'],
+                        choices=[('C1', 'A', ['P0', 'P1']), ('C2', 'A', ['Q0', 'Q1'])],
+                        conns=[('g1', d1, False, 'A'), ('g2', d2, False, 'P0'), ('t0', ('min', 0), True, 'Q0')],
+                        groups=[('G', ['g1', 'g2'])], conn_choices=[('CC', ['G'], ['t0'], [])],
+                        label=f'conn-group-conditional-target-{trial}'))
     conns = [('s0', o1, False, 'A'), ('s1', o1, False, 'A'), ('s2', o1, False, 'A'), ('g1', ('min', 1), False, 'A'), ('g2', ('min', 0), False, 'P0')]
     out.append(Desc(['A', 'P0', 'P1'], [], ['A'], choices=[('C1', 'A', ['P0', 'P1'])], conns=conns,
                     groups=[('G', ['g1', 'g2'])], conn_choices=[('CC', ['s0', 's1', 's2'], ['G'], [])],
